@@ -45,6 +45,17 @@ theorem encode_layout (p : EncParam) (w : W) (hb : w.broken = false) (hd : (fp p
 theorem encode_broken (p : EncParam) (w : W) (hb : w.broken = true) : encode p w = .err .writer := by
   simp [encode, W.malloc, hb]
 
+/-- Encode never panics, whatever the parameters (duplicate keys, out-of-range values included): every
+    `PutUint16/PutUint32/buf[i] =` of the model stays inside the region it was given -/
+theorem encode_safe (p : EncParam) (w : W) : (encode p w).Safe := by
+  cases hb : w.broken with
+  | true => rw [encode_broken p w hb]; exact ⟨fun s => by simp, by simp⟩
+  | false =>
+    have hr := encode_raw p w hb
+    split at hr
+    · rw [hr]; exact ⟨fun s => by simp, by simp⟩
+    · obtain ⟨L, e, _⟩ := hr; rw [e]; exact ⟨fun s => by simp, by simp⟩
+
 /-- **the 16-bit truncations are unreachable**: a key or value longer than 65535 bytes, or more than
     65535 entries in a section, always puts the info size over the limit (so Encode ends in the size error) -/
 theorem oversize_always_rejected (p : EncParam) (hd : (fp p).Dom)
